@@ -15,6 +15,9 @@ type FuncResult struct {
 	eng       *Engine
 	undecided string
 	searchNote string
+	searchInputs int    // generated inputs of the bounded stand-in search (0 = not run)
+	searchTried  int    // ... of which satisfied the precondition
+	searchResult string // no-violation-found | violation-found
 	args      []Val
 	bind      []Val
 }
